@@ -25,6 +25,11 @@ CHECKS = {
    technique='exhaustive exploration (z3 all-SAT over verdict and schedule choice vectors) of the real strategy_ddmin.reduce / strategy_hierarchical.reduce on a fake process pool with an explicit scheduler; chain relation asserted over recorded derivations, verdicts and writes',
    text='For every verdict function (three oracle families) and every schedule (J up to 2 quick / 3 thorough; pull / execute one of the first J queued tasks / deliver; several simultaneous successes, successes arriving after the abort signal) within the budgets, on 10 scenario configurations incl. ddmin through _check_par: each write of the output file was accepted before, derives from the previously written input by one recorded application of a simplification, the returned input is the last written, and every input handed to a TaskGenerator/Producer has pairwise distinct node ids.',
    note="Trusted: the nondeterministic environment of vlib/stubs/strat.py (oracle families: first-V free verdicts, hash classes, required tokens, consistent numerals; FakePool with atomic pull/execute/deliver steps; plain abort flag); z3 as exhaustive enumerator of choice vectors (all-SAT, generalised to the bits each run read). The strategy code itself runs natively, unmodified. Outside: real processes and torn reads between feeder thread and main thread; more free verdicts / scheduling choices than the budget; other inputs than the scenario scripts."),
+ 'C06': dict(
+   category='model_checking', design_ref='DESIGN.md 5 C06',
+   technique='bounded symbolic execution (CrossHair/z3) with a symbolic crash point: the real write_smtlib_to_file, directly and through the real strategies, on a POSIX-like fake file system whose every operation is a step; the content visible to a reader is checked after every step and after the crash',
+   text='For every step index n (symbolic) at which the process dies, every output format, and at every instant in between at which a concurrent reader may open the file: the output path shows the complete text of the previous or the new accepted input during a rewrite and of the last accepted input otherwise; nothing but the output file and temporary siblings is opened for writing; no temporary file is left after a completed run. Covers three successive rewrites directly and all write sites reached by complete hierarchical and ddmin runs.',
+   note='Trusted: the fake file system (open(w) truncates at once, writes are immediately visible, os.replace atomic, crashes happen between operations); oracle/pool stubs of C05 for the strategy runs. Outside: the real kernel/file system, power loss, removal of the temporary directory at interpreter exit.'),
  'C07': dict(
    category='model_checking', design_ref='DESIGN.md 5 C07',
    technique='bounded symbolic execution (CrossHair/z3): symbolic text -> real parser -> each real renderer -> read back by the reference reader and the real parser; tree-level variant with lexemes of symbolic kind/content; line wrapping with symbolic width and with a long concrete context',
